@@ -144,6 +144,22 @@ def task(args):
                     dev += sum(abs(a - b) for a, b in zip(sch.points[c], want))
                 dev += sum(abs(a - b) for a, b in zip(sch.weights, q2.weights))
                 rec("QuadScheme2D." + mn[:8], "reflects-only-its-coordinate/request-order={}/{}".format("".join(o[7] for o in order), mn), dev, ZERO)
+        # chained mirrors on a scheme whose mirrors were all requested before (the returned mirror must be a scheme of its own,
+        # with empty caches: s.mirror_a().mirror_b() reflects both coordinates of s)
+        for dim, ctor, names in ((3, Q.ProductScheme3D, ("mirror_x", "mirror_y", "mirror_z")), (2, Q.ProductScheme2D, ("mirror_x", "mirror_y"))):
+            qs = ctor(base)
+            for mn in names:
+                getattr(qs, mn)()
+            for ma in names:
+                for mb in names:
+                    sch = getattr(getattr(qs, ma)(), mb)()
+                    flip = {"xyz".index(ma[7])} ^ {"xyz".index(mb[7])}      # the same coordinate twice: back to the original
+                    dev = ZERO
+                    for c in range(dim):
+                        want = (ONE - qs.points[c]) if c in flip else qs.points[c]
+                        dev += sum(abs(a - b) for a, b in zip(sch.points[c], want))
+                    dev += sum(abs(a - b) for a, b in zip(sch.weights, qs.weights))
+                    rec("QuadScheme{}D.{}".format(dim, mb), "chained-after-all-mirrors-were-cached/{}.{}".format(ma, mb), dev, ZERO)
         for mname in ("mirror_x", "mirror_y", "mirror_z"):
             sch = getattr(p3, mname)()
             e = (min(deg3, 1), min(deg3, 1), 0) if deg3 >= 2 else (0, 0, 0)
